@@ -870,6 +870,7 @@ def dir_entries(h, big):
 class C02(PropBase):
     pid = "C02"
     coq_dirs = ["Base", "C02", "C08"]
+    translators = ["format_layouts.py"]
     bins = ["c02"]
     impl_mem_gb = 4
     rule = ("a case = one dump model (header fields, 0..40 items per list, UTF-16 names incl. unpaired surrogates, CodeView records of "
